@@ -85,7 +85,24 @@ def gen_ops(rng, impl, long_=False):
                 ops.append(["thr", rng.choice(FACS + [1]), rng.choice([5, 10, 20, 30, 40])])
             else:
                 ops.append(["timer"])
+    if not long_ and rng.random() < 0.35:
+        ops += fault_episode(rng, msg)
     ops.append(["timer"])
+    return ops
+
+
+def fault_episode(rng, msg):
+    """the synchronous incident handling fails for triggering events (qualifier raises / logdir removed / logdir not a
+    directory / raising reporter), followed by more triggering events on one key than its buffer holds"""
+    fac, lvl, n = rng.choice(FACS), rng.choice([30, 35, 40]), rng.choice([0, 1, 2, 3, 5])
+    kind = rng.choice([1, 2, 2, 2])
+    ops = [["timer"], ["size", fac, lvl, n], ["fault", kind, rng.choice(["rmdir", "notadir", "factory"])]]
+    for i in range(n + rng.randint(2, 9)):
+        ops.append(msg(rng.choice(["ok", "ok", "odd", "bad"]), lvl if rng.random() < 0.85 else rng.choice(LVLS), fac))
+    if rng.random() < 0.6:
+        ops.append(["fault", 0, ""])
+        for i in range(rng.randint(1, 6)):
+            ops.append(msg(None, rng.choice([20, 30, 35]), rng.choice(FACS)))
     return ops
 
 
@@ -111,6 +128,8 @@ def run_trace(ctx, impl, cfg, ops, name="t", judge=True):
     kinds, unenc = set(), [False]
     nat = {}
     hit_limit = False
+    fault_now = [0]
+    faulted_triggers = 0
     replay = dict(cfg=list(cfg), ops=ops)
 
     def bad(sig, what, **kw):
@@ -124,6 +143,8 @@ def run_trace(ctx, impl, cfg, ops, name="t", judge=True):
             r, exc, reprok = impl.call_msg(rig, op)
             if op[0] == "size":
                 maxlimit = max(maxlimit, op[3])
+            if op[0] == "fault":
+                fault_now[0] = op[1]
             new = rig.order[n0:]
             okflag = True
             for ev in new:
@@ -166,7 +187,9 @@ def run_trace(ctx, impl, cfg, ops, name="t", judge=True):
                 if n == lim and lim > 0:
                     hit_limit = True
             # ---- expected incidents
-            if qual and (ir0 is None or stuck0):
+            if qual and fault_now[0] and [1 for ev in new if isinstance(ev.get("level"), int) and ev["level"] >= flog.WEIRD]:
+                faulted_triggers += 1
+            if qual and not fault_now[0] and (ir0 is None or stuck0):
                 # an event whose own buffer has a negative limit raises IndexError while trimming, before the qualifier
                 trig = [ev for ev in new if isinstance(ev.get("level"), int) and ev["level"] >= flog.WEIRD
                         and L.buffer_sizes.get(ev.get("facility"), {}).get(ev["level"], L.DEFAULT_SIZELIMIT) >= 0]
@@ -201,7 +224,7 @@ def run_trace(ctx, impl, cfg, ops, name="t", judge=True):
                            L.incidents_declared, L.incidents_recorded, rig.tmp_count()))
                 bad(lost_sig(kinds, unenc[0]), what, expected=x)
                 break
-        left = [f for f in os.listdir(rig.incdir) if not f.endswith(".flog.bz2")]
+        left = [f for f in os.listdir(rig.incdir) if not f.endswith(".flog.bz2")] if os.path.isdir(rig.incdir) else []
         if left and not lost:
             bad("oracle/incident-leftovers", "files left in the incident directory without a lost incident: %r" % left)
         # ---- oracle: read-back of (num, level, message)
@@ -238,10 +261,14 @@ def run_trace(ctx, impl, cfg, ops, name="t", judge=True):
                     bad("oracle/readback-differs", "%s: event %r renders %r, emitted one renders %r" % (where, v, t1, t0))
         for fn in rig.published:
             p = os.path.join(rig.incdir, fn)
-            evs = list(flogfile.get_events(p))
+            evs = rig.contents[fn]
+            if isinstance(evs, Exception):
+                continue
             check_back(fn, evs[0]["header"]["trigger"])
             for e in evs[1:]:
                 check_back(fn, e["d"])
+            if not os.path.exists(p):
+                continue
             try:
                 rc, out, err = impl.dump_file(p)
                 if rc:
@@ -264,7 +291,7 @@ def run_trace(ctx, impl, cfg, ops, name="t", judge=True):
             for d in back[:50]:
                 check_back("all.flog", d)
     return dict(cfg=cfg, ops=ops, flags=flags, steps=steps, final=final, triggers=len(expected), hit_limit=hit_limit,
-                kinds=sorted(kinds))
+                kinds=sorted(kinds), faulted_triggers=faulted_triggers)
 
 
 def logger_traces(ctx, impl):
@@ -280,6 +307,7 @@ def logger_traces(ctx, impl):
         ctx.hist("trace_len", (len(ops) // 10) * 10)
         ctx.hist("trace_triggers", min(t["triggers"], 5))
         ctx.hist("trace_recorded", min(t["final"]["recorded"], 5))
+        ctx.hist("trace_triggers_while_incident_handling_fails", min(t["faulted_triggers"], 10))
         for o in ops:
             ctx.hist("op_kind", o[0])
         for okf, rp in t["flags"]:
@@ -302,7 +330,26 @@ def coq_op(op, flag):
         return "SetSize %s %s %s" % (coq_Z(op[1]), coq_Z(op[2]), coq_Z(op[3]))
     if k == "thr":
         return "SetThr %s %s" % (coq_Z(op[1]), coq_Z(op[2]))
+    assert k == "timer", op
     return "Timer"
+
+
+FAULTS = {0: "NoFault", 1: "QualifierRaises", 2: "ReporterRaises"}
+
+
+def coq_segs(t):
+    """[(cfg, ops)] split at the fault ops; a fault op itself is a no-op of the model, kept as SetThr-free padding: it is
+    represented by an empty step so that per-step observations stay aligned"""
+    segs, cur, fault = [], [], 0
+    for o, f in zip(t["ops"], t["flags"]):
+        if o[0] == "fault":
+            segs.append((fault, cur))
+            cur, fault = [], o[1]
+        else:
+            cur.append(coq_op(o, f))
+    segs.append((fault, cur))
+    return coq_list(["(mkCfg %s %s %s, %s)" % (coq_bool(t["cfg"][0]), coq_bool(t["cfg"][1]), FAULTS[k], coq_list(ops))
+                     for k, ops in segs])
 
 
 MODEL_DEFS = """
@@ -320,7 +367,12 @@ Fixpoint run_obs (c : cfg) (s : st) (ops : list op) : list (Z * Z * Z * Z) :=
               (match r with Some n => n | None => -1000000 end, i_declared (s_inc s1), i_recorded (s_inc s1),
                Z.of_nat (List.length (all_buffered (s_bufs s1)))) :: run_obs c s1 t
   end.
-Definition trace (c : cfg) (ops : list op) := (run_obs c init ops, obs_final (fst (run c init ops))).
+Fixpoint segs_obs (s : st) (segs : list (cfg * list op)) : list (Z * Z * Z * Z) :=
+  match segs with
+  | [] => []
+  | (c, ops) :: t => run_obs c s ops ++ segs_obs (fst (run c s ops)) t
+  end.
+Definition trace (segs : list (cfg * list op)) := (segs_obs init segs, obs_final (run_segs init segs)).
 """
 
 
@@ -336,8 +388,7 @@ def correspond_logger(ctx, traces):
         part = traces[s0:s0 + shard]
         body = MODEL_DEFS
         for j, t in enumerate(part):
-            ops = coq_list([coq_op(o, f) for o, f in zip(t["ops"], t["flags"])])
-            body += "Eval vm_compute in trace (mkCfg %s %s) %s.\n" % (coq_bool(t["cfg"][0]), coq_bool(t["cfg"][1]), ops)
+            body += "Eval vm_compute in trace %s.\n" % coq_segs(t)
         try:
             vals = ctx.coq_eval("C18_traces_%d" % (s0 // shard), body, requires=REQ)
         except common.CoqEvalError as e:
@@ -350,7 +401,13 @@ def correspond_logger(ctx, traces):
             fin = t["final"]
             ib = [[f, [[l, [norm_view(x) for x in q]] for l, q in d]] for f, d in fin["bufs"]]
             diffs = []
-            if msteps != t["steps"]:
+            isteps = [st_ for st_, o in zip(t["steps"], t["ops"]) if o[0] != "fault"]
+            iops = [o for o in t["ops"] if o[0] != "fault"]
+            if msteps != isteps:
+                k = next((i for i, (a, b) in enumerate(zip(msteps, isteps)) if a != b), -1)
+                diffs.append("step %d (ret, declared, recorded, buffered): model %r, implementation %r, op %r"
+                             % (k, msteps[k] if k >= 0 else None, isteps[k] if k >= 0 else None, iops[k] if k >= 0 else None))
+            if False:
                 k = next((i for i, (a, b) in enumerate(zip(msteps, t["steps"])) if a != b), -1)
                 diffs.append("step %d (ret, declared, recorded, buffered): model %r, implementation %r, op %r"
                              % (k, msteps[k] if k >= 0 else None, t["steps"][k] if k >= 0 else None, t["ops"][k] if k >= 0 else None))
